@@ -358,7 +358,7 @@ func runCube(prog *ssa.Program, pkg *ssa.Package, fn *ssa.Function, modPath stri
 		if all[i].Trivial {
 			res.NTrivial++
 		}
-		if !all[i].Trivial || all[i].Verdict != "unsat" {
+		if !all[i].Trivial || all[i].Verdict != "unsat" || all[i].Kind == "reach" {
 			res.Queries = append(res.Queries, all[i])
 		}
 	}
